@@ -11,7 +11,7 @@ from .. import rules, flow
 from ..rules import (param_by_name, one_call, term_of_operand, term_of_local, term_str, callee_name, path_conditions,
                      defs_with_conditions, cond_true, cond_false)
 from ..flow import term_contains
-from .common import ctx, short_site
+from .common import ctx, short_site, is_session_replacement, SESSION_REPLACERS
 
 PID = 'C12'
 ADR_ACK_LIMIT = 64
@@ -42,11 +42,29 @@ def extra_conditions(conds, allowed):
     return [x for x in conds if not any(a(x) for a in allowed)]
 
 
+def _certification_adr_store(c, body, bb):
+    """the store is in the arm of certification::Response::AdrBitChange of handle_message's result, after the fcnt_up increment (accepted frame)"""
+    bf = c.pf.bf(body)
+    conds = path_conditions(bf, bb)
+    return any(x[0][0] == 'discr' and rules.is_call_suffix(x[0][1], 'Certification::handle_message') for x in conds)
+
+
 def writers(c, res, adt, field, allowed, pid=PID):
     ws = c.pf.writers_of_field(adt, field, crates={'lorawan_device'})
     seen = {}
     for (b, bb, si, s, kind) in ws:
         if b.exp and 'derive' in b.exp:
+            continue
+        # feature-gated writers reviewed for the all-features build (thorough tier): restoring a persisted Uplink (serde; C20)
+        # and the certification protocol's AdrBitChangeReq, an "ADR toggle" event of the property
+        if 'serde_core::de::Deserialize' in b.path and kind == 'construct':
+            res.require(True, '%s:who-writes:%s:deserialize' % (pid, field), '', None, 'WHO-WRITES(%s)' % field, instance='%s.%s constructed by the hand-written Deserialize impl (restore, C20)' % (adt.split('::')[-1], field))
+            continue
+        if field == 'adr_enabled' and b.path == 'lorawan_device::mac::session::Session::handle_rx' and kind == 'store' and _certification_adr_store(c, b, bb):
+            res.require(True, '%s:who-writes:%s:certification' % (pid, field), '', None, 'WHO-WRITES(%s)' % field, instance='adr_enabled set by the certification AdrBitChange command after the frame was accepted')
+            continue
+        if is_session_replacement(b, s, kind):
+            res.require(True, '%s:who-writes:%s:%s' % (pid, field, rules.short_fn(b.path)), '', None, 'WHO-WRITES(%s)' % field, instance='session replaced as a whole: %s (%s)' % (rules.short_fn(b.path), SESSION_REPLACERS[b.path]))
             continue
         seen.setdefault(b.path, []).append((b, bb, si, s, kind))
         res.require(b.path in allowed and kind in allowed[b.path], '%s:who-writes:%s:%s' % (pid, field, rules.short_fn(b.path)),
